@@ -1,7 +1,7 @@
 (* C08: saved rules behave identically once loaded (codec part).
    Proofs in Proofs/ArenaProofs.v and Proofs/ArenaMemProofs.v. *)
 From Coq Require Import List NArith Lia.
-From YV Require Import Base.Bytes Model.Arena Model.ArenaMem Proofs.ArenaProofs Proofs.ArenaMemProofs.
+From YV Require Import Base.Bytes Model.Arena Model.ArenaMem Model.Image Model.Verify Proofs.ArenaProofs Proofs.ArenaMemProofs Proofs.VerifyProofs.
 Import ListNotations.
 
 (* loading what was saved gives back exactly the saved content: every buffer byte and the whole
@@ -19,7 +19,15 @@ Theorem saved_bytes_address_free : forall c m m',
   abs m = abs m' -> save_mem c m = save_mem c m'.
 Proof. exact save_address_free_proof. Qed.
 Print Assumptions saved_bytes_address_free.
+(* what the scan model (Model/Verify.v: stored automaton + literal verifier + match list, proved exact in Properties_C01)
+   records for any text string of the image and any buffer is the same before saving and after loading the saved bytes *)
+Theorem text_scan_same_after_reload : forall (a a' : arena) sidx buf,
+  wf_arena a = true -> rules_load cfg_current (save cfg_current a) = LOk a' ->
+  scan_image_string (decode a') sidx buf = scan_image_string (decode a) sidx buf.
+Proof. exact text_scan_same_after_reload_proof. Qed.
+Print Assumptions text_scan_same_after_reload.
+
 (* per image (checks/c08.py): wf_arena, layout_cert (every DECLARE_REFERENCE field of the table structs
    is registered for relocation) and byte-identical re-save by the model.  Not proved: that scanning the
-   loaded rules equals scanning the original for all buffers (no full scan model); that is compared on
-   generated buffers. *)
+   loaded rules equals scanning the original for regexp / hex strings and conditions (no scan model for them); that is
+   compared on generated buffers. *)
